@@ -144,7 +144,19 @@ def project(lines: list[str], keep: dict) -> list[str]:
                 d = kv(l)
                 head = l.split(" ")[1] if pre in ("CONN", "PEER", "APPS") else ""
                 out.append(pre + " " + head + " " + " ".join(f"{k}={d.get(k)}" for k in f))
-    return out
+    # what is written to *different* sockets within one step has no order between the sockets: a run of consecutive OUT
+    # lines is compared connection by connection (the order on each connection is kept)
+    canon, run_ = [], []
+    for l in out + [""]:
+        if l.startswith("OUT "):
+            run_.append(l)
+            continue
+        if run_:
+            canon += sorted(run_, key=lambda x: x.split(" ")[1])       # stable: per-connection order preserved
+            run_ = []
+        if l:
+            canon.append(l)
+    return canon
 
 
 def run(res: Result, scenarios: list[str], keep: dict, oracle, label: str = ""):
